@@ -75,7 +75,7 @@ def main(ctx: Ctx) -> int:
             if ctx.quick:
                 combos = rng.sample(combos, 9) + [("pos", "zero", "zero"), ("pos", "pos", "zero"), ("neg", "neg", "neg")]
             for sa, sb, sc in combos:
-                for rep in range(1 if ctx.quick else 3):
+                for rep in range(1 if ctx.quick else 12):
                     a, b, c = rng.choice(VALS[sa]), rng.choice(VALS[sb]), rng.choice(VALS[sc])
                     if fmt == "leeds":
                         if a < 0 or abs(a) > 1e99 or (a != 0 and abs(a) < 1e-99):
